@@ -34,7 +34,7 @@ partial def connOps (s : Src) (delivered : List Bytes) (matching : Bool) (out : 
     | .ok s' => connOps s' delivered matching (out.push "pf:ok")
     | .error .full => connOps s delivered matching (out.push "pf:full")
     | .error _ =>
-      -- the failing read has consumed nothing in the scripted socket
+      -- only a read error without bytes makes prefetch fail: nothing was consumed
       connOps s delivered matching (out.push "pf:err")
   | "fz" => connOps s.freeze delivered true (out.push "fz")
   | "uf" => connOps s.unfreeze delivered false (out.push "uf")
@@ -55,8 +55,10 @@ partial def connOps (s : Src) (delivered : List Bytes) (matching : Bool) (out : 
 def doConn : P String := do
   let n ← nat
   let chunks ← rep n do return genTok (← tok)
+  -- `L1`: the socket reports the end of the stream together with the last bytes of the script
+  let last := (← tok) == "L1"
   let _nops ← nat
-  let out ← connOps (.l4 [] 0 0 false (.raw chunks)) ([] : List Bytes) false #[]
+  let out ← connOps (.l4 [] 0 0 false (.raw chunks last)) ([] : List Bytes) false #[]
   return " ".intercalate out.toList
 
 end L4.Drv
